@@ -104,8 +104,10 @@ fn adversarial(r: &mut Rng, i: u64) -> (String, String) {
             let f = format!("%PDF-1.5\n1 0 obj\n<</Type/Catalog>>\nendobj\n2 0 obj\n<</Type/XRef/Size {}/W[{} {} {}]/Index[{} {}]/Root 1 0 R/Length {}>>\nstream\n", x(r), x(r), x(r), x(r), x(r), x(r), body.len());
             let mut b = f.into_bytes(); b.extend_from_slice(body); b.extend_from_slice(b"\nendstream\nendobj\nstartxref\n41\n%%EOF");
             ("xrefstream-extremes".into(), format!("L {}", hex_tok(&b))) }
-        1 => { // xref table with extreme subsection header / entries
-            let f = format!("%PDF-1.4\n1 0 obj\n<</Type/Catalog>>\nendobj\nxref\n{} {}\n{:0>10} {:0>5} n \n0000000009 00000 n \ntrailer\n<</Size {}/Root 1 0 R/Prev {}>>\nstartxref\n41\n%%EOF", x(r), x(r), x(r), x(r), x(r), x(r));
+        1 => { // xref table with extreme subsection header / entries; half the time the count matches the two entries and
+               // the start is one of the largest numbers (so that the numbering of the entries runs past the type's range)
+            let (start, count) = if r.chance(1, 2) { (r.pick(&["18446744073709551615", "18446744073709551614", "4294967295", "4294967294", "9223372036854775807", "18446744073709551616"]).to_string(), r.pick(&["1", "2"]).to_string()) } else { (x(r), x(r)) };
+            let f = format!("%PDF-1.4\n1 0 obj\n<</Type/Catalog>>\nendobj\nxref\n0 2\n0000000000 65535 f \n0000000009 00000 n \n{} {}\n{:0>10} {:0>5} n \n0000000009 00000 n \ntrailer\n<</Size {}/Root 1 0 R/Prev {}>>\nstartxref\n41\n%%EOF", start, count, x(r), x(r), x(r), x(r));
             ("xreftable-extremes".into(), format!("L {}", hex_tok(f.as_bytes()))) }
         2 => { // nesting bombs
             let depth = *r.pick(&[50usize, 127, 128, 129, 1000, 20000, 100000]);
@@ -227,7 +229,7 @@ with overflow checks. Outcome must be ok/err; `load` outcomes are also compared 
         ("F-C04-c", format!("L {}", hex_tok(b"%PDF-1.5\n1 0 obj\n<</Type/XRef/Size 2/W[0 0 0]/Index[0 4000000000]/Root 1 0 R/Length 3>>\nstream\nabc\nendstream\nendobj\nstartxref\n9\n%%EOF")), "xref stream with zero-width rows and a count of 4e9"),
         ("F-C04-d", { let mut o = b"%PDF-1.4\n1 0 obj\n".to_vec(); o.extend(vec![b'['; 20000]); o.extend_from_slice(b"\nendobj\nxref\n0 2\n0000000000 65535 f \n0000000009 00000 n \ntrailer\n<</Size 2>>\nstartxref\n20024\n%%EOF"); format!("L {}", hex_tok(&o)) }, "20000 nested arrays"),
         ("F-C04-g", format!("C {}", hex_tok(b"BI /W 9223372036854775807 /H 9223372036854775807 /BPC 8 /CS /RGB ID x EI")), "inline image with overflowing geometry"),
-        ("F-C04-i", format!("L {}", hex_tok(b"%PDF-1.4\n1 0 obj\nnull\nendobj\nxref\n18446744073709551615 2\n0000000009 00000 n \n0000000009 00000 n \ntrailer\n<</Size 2>>\nstartxref\n27\n%%EOF")), "xref table subsection start = usize::MAX"),
+        ("F-C04-i", format!("L {}", hex_tok(b"%PDF-1.4\n1 0 obj\nnull\nendobj\nxref\n0 2\n0000000000 65535 f \n0000000009 00000 n \n18446744073709551615 2\n0000000009 00000 n \n0000000009 00000 n \ntrailer\n<</Size 2>>\nstartxref\n29\n%%EOF")), "xref table subsection start = usize::MAX"),
         ("F-C04-j", format!("L {}", hex_tok(b"%PDF-1.5\n1 0 obj\n<</Type/XRef/Size 2/W[1 1 1]/Index[9223372036854775807 2]/Root 1 0 R/Length 6>>\nstream\n\x01\x09\x00\x01\x09\x00\nendstream\nendobj\nstartxref\n9\n%%EOF")), "xref stream Index start = i64::MAX"),
         ("F-C04-e", format!("F FlateDecode D3 {} i12 {} i4611686018427387904 {} i4 ; {}", hex(b"Predictor"), hex(b"Columns"), hex(b"Colors"), hex_tok(&[0x78, 0x9c, 0x03, 0x00, 0x00, 0x00, 0x00, 0x01])), "PNG predictor geometry overflow"),
     ];
